@@ -391,7 +391,7 @@ def generate(rng, tier):
                                  for i, p in enumerate(sig[3:])]
             elif r < 0.3:
                 sig = sig[1:]
-            elif r < 0.4:
+            elif r < 0.4 and sig:
                 sig = [sig[0]] + [["extra", "PK", False]] + sig[1:]
             if not G.sig_valid_python(sig):
                 sig = G.gen_sig(rng, [a[0] for a in args])
